@@ -64,4 +64,7 @@ Section Multi.
     | [] => s
     | a :: sch' => srun (supdate s a) sch'
     end.
+  (* the listener accepted these connections: (on_connection kind, handler strategy, fresh consumer, peer) *)
+  Definition accept (l : list (nat * list hact * C * speer)) : list conn :=
+    map (fun x => match x with (oc, acts0, c, o) => CNew oc acts0 c o end) l.
 End Multi.
